@@ -350,3 +350,106 @@ static void run_c15_stacks(void)
     wl_rt_stop(rt);
 }
 SIM_WORKLOAD("C15", "stacks", run_c15_stacks, 10)
+
+/* ================================================================ (c) descriptor churn */
+/* Worker ULTs in pools shared by several streams create small batches of tasklets / ULTs and
+ * free them at once, i.e. while they may still be queued or running: the free then waits in a
+ * yield loop or blocks, and the worker may continue on another stream.  Descriptors and stacks
+ * go back to the memory pool of the stream the worker is on *now*.  Oracles: a handle handed out
+ * by a create is not the handle of a live unit; the M-local-pool monitor (stream-local pools
+ * are touched by their own stream only); every unit runs once; nothing is left at the end. */
+#define CH_MAXW 6
+#define CH_MAXB 6
+#define CH_LIVE 64
+static struct {
+    wl_rt rt;
+    ABT_thread live[CH_LIVE];
+    int nlive;
+    volatile int runs[CH_MAXW][CH_MAXB];
+    int rounds[CH_MAXW];
+    volatile int wdone[CH_MAXW];
+    long created, moved;
+} H;
+static void ch_unit(void *arg)
+{
+    volatile int *r = (volatile int *)arg;
+    (*r)++;
+}
+static void ch_unit_yield(void *arg)
+{
+    volatile int *r = (volatile int *)arg;
+    ABT_OK(ABT_thread_yield());
+    (*r)++;
+}
+static void ch_live_add(ABT_thread t)
+{
+    for (int i = 0; i < H.nlive; i++)
+        SIM_CHECK(H.live[i] != t, "desc:handed-out-twice", "a create returned the handle %p, which belongs to a unit that is still live", (void *)t);
+    SIM_CHECK(H.nlive < CH_LIVE, "infra:c15-live-table", "live table full");
+    H.live[H.nlive++] = t;
+}
+static void ch_live_del(ABT_thread t)
+{
+    for (int i = 0; i < H.nlive; i++)
+        if (H.live[i] == t) {
+            H.live[i] = H.live[--H.nlive];
+            return;
+        }
+    sim_fail("infra:c15-live-table", "handle not in the live table");
+}
+static void ch_worker(void *arg)
+{
+    int w = (int)(long)arg;
+    for (int r = 0; r < H.rounds[w]; r++) {
+        int n = 1 + (int)sim_rand_n(SIM_RS_CHAOS, CH_MAXB);
+        ABT_thread t[CH_MAXB];
+        int rank0 = -1, rank1 = -1;
+        ABT_OK(ABT_self_get_xstream_rank(&rank0));
+        for (int i = 0; i < n; i++) {
+            H.runs[w][i] = 0;
+            ABT_pool p = H.rt.pools[sim_rand_n(SIM_RS_CHAOS, (uint32_t)H.rt.npools)];
+            int kind = (int)sim_rand_n(SIM_RS_CHAOS, 3);
+            if (kind == 0)
+                ABT_OK(ABT_task_create(p, ch_unit, (void *)&H.runs[w][i], &t[i]));
+            else
+                ABT_OK(ABT_thread_create(p, kind == 1 ? ch_unit : ch_unit_yield, (void *)&H.runs[w][i], ABT_THREAD_ATTR_NULL, &t[i]));
+            ch_live_add(t[i]);
+            H.created++;
+        }
+        for (int i = 0; i < n; i++) {
+            ABT_thread h = t[i];
+            ch_live_del(h); /* from the moment the free is called the descriptor may be reused */
+            ABT_OK(ABT_thread_free(&t[i]));
+            SIM_CHECK(H.runs[w][i] == 1, "once:not-exactly-once", "unit %d of worker %d ran %d times before ABT_thread_free returned", i, w, H.runs[w][i]);
+        }
+        ABT_OK(ABT_self_get_xstream_rank(&rank1));
+        if (rank0 != rank1)
+            H.moved++;
+        sim_progress();
+    }
+    H.wdone[w] = 1;
+}
+static void run_c15_churn(void)
+{
+    memset(&H, 0, sizeof H);
+    wl_rt *rt = &H.rt;
+    wl_rt_start(rt, WL_RT_NEED_SHARED | WL_RT_MIN2ES | WL_RT_NO_TOPO2);
+    int nw = plan_range(1, CH_MAXW);
+    sim_note("C15 churn workers=%d ", nw);
+    ABT_thread wt[CH_MAXW];
+    for (int w = 0; w < nw; w++) {
+        H.rounds[w] = plan_range(1, 4);
+        /* pools[0] is the shared pool */
+        ABT_OK(ABT_thread_create(rt->pools[0], ch_worker, (void *)(long)w, ABT_THREAD_ATTR_NULL, &wt[w]));
+    }
+    for (int w = 0; w < nw; w++) {
+        ABT_OK(ABT_thread_free(&wt[w]));
+        SIM_CHECK(H.wdone[w], "once:not-exactly-once", "worker %d did not finish", w);
+        sim_progress();
+    }
+    SIM_CHECK(H.nlive == 0, "infra:c15-live-table", "live table not empty");
+    wl_rt_stop(rt);
+    sim_count("c15.churn_units", (uint64_t)H.created);
+    sim_count("c15.churn_rounds_finished_on_another_stream", (uint64_t)H.moved);
+}
+SIM_WORKLOAD("C15", "churn", run_c15_churn, 6)
